@@ -236,6 +236,26 @@ func GenUciSession(prop string, seed uint64) *Scenario {
 			sc.Config = nil
 		}
 	}
+	// option audit: the engine's own configuration print-out before and
+	// after a setoption (only while idle, as the protocol requires)
+	if prop == "C12" && rng.Chance(0.6) {
+		var cands []UciOption
+		for _, o := range EngineOptions {
+			if (o.Type == "check" || o.Type == "spin") && o.Name != "Use_Book" {
+				cands = append(cands, o)
+			}
+		}
+		for k := rng.Range(1, 5); k > 0 && len(cands) > 0; k-- {
+			o := cands[rng.Intn(len(cands))]
+			v := []string{"true", "false"}[rng.Intn(2)]
+			if o.Type == "spin" {
+				v = []string{"1", "2", "4", "8"}[rng.Intn(4)]
+			}
+			add(20, "send", "setoption name Print Config")
+			add(20, "send", fmt.Sprintf("setoption name %s value %s", o.Name, v))
+			add(20, "send", "setoption name Print Config")
+		}
+	}
 	add(20, "send", "isready")
 	add(0, "wait_ready", "").MaxMs = 50
 
@@ -383,6 +403,20 @@ func GenUciSession(prop string, seed uint64) *Scenario {
 			}
 		}
 		firstGap = gapAfterResult(rng)
+	}
+	// new game == fresh engine: the same fixed-depth search after ucinewgame
+	// and on a brand-new handler with the same options
+	if prop == "C12" && rng.Chance(0.35) {
+		posCmd, _ := genPosition(rng, 0)
+		goLine := fmt.Sprintf("go depth %d", rng.Range(1, maxD))
+		add(gapAfterResult(rng), "send", "ucinewgame")
+		add(20, "send", posCmd)
+		add(20, "send", goLine)
+		add(0, "wait_best", "").MaxMs = 600_000
+		add(100, "fresh_engine", "")
+		add(20, "send", posCmd)
+		add(20, "send", goLine)
+		add(0, "wait_best", "").MaxMs = 600_000
 	}
 	return sc
 }
